@@ -21,12 +21,13 @@ type c10Live struct {
 	Fault     string     `json:"fault"` // timeouts timeouts-spread read-syscall read-perm read-other write-syscall write-other link write-syscall-outage write-other-outage
 	N         int        `json:"n"`     // number of timeouts / index of the failing scheduled write
 	FaultNS   int64      `json:"fault_ns"`
-	Pre       []advEvent `json:"pre"`  // traffic before and after the fault
+	Pre       []advEvent `json:"pre"`                 // traffic before and after the fault
 	DialFail  []string   `json:"dial_failures_after"` // outcomes of the dial attempts that follow the first one
-	StopNS    int64      `json:"stop_ns"` // 0: never cancelled (fatal scenarios)
+	StopNS    int64      `json:"stop_ns"`             // 0: never cancelled (fatal scenarios)
 	LatNS     int64      `json:"write_latency_ns"`
 	Terminate bool       `json:"terminate"`
 	WriteDst  string     `json:"write_fault_dst,omitempty"` // unicast (default) or multicast (n=0 is the initial RA)
+	Errno     string     `json:"errno,omitempty"`           // which system call error (read-syscall / write-syscall); empty: a bare ENETDOWN
 }
 
 func (c c10Live) writeDst() string {
@@ -78,7 +79,11 @@ func c10LiveProp(t *testing.T, k *verifkit.Kit) func(c c10Live) error {
 				at += int64(2 * time.Second)
 			}
 		case "read-syscall":
-			events = append(events, advEvent{AtNS: c.FaultNS, Kind: "readerr", Err: "syscall"})
+			kind := "syscall"
+			if c.Errno != "" {
+				kind = "syscall:" + c.Errno
+			}
+			events = append(events, advEvent{AtNS: c.FaultNS, Kind: "readerr", Err: kind})
 		case "read-perm":
 			events = append(events, advEvent{AtNS: c.FaultNS, Kind: "readerr", Err: "perm"})
 		case "read-other":
@@ -86,7 +91,11 @@ func c10LiveProp(t *testing.T, k *verifkit.Kit) func(c c10Live) error {
 		case "link":
 			events = append(events, advEvent{AtNS: c.FaultNS, Kind: "link"})
 		case "write-syscall":
-			lat = append(lat, latRule{Dst: c.writeDst(), N: c.N, Err: "syscall"})
+			kind := "syscall"
+			if c.Errno != "" {
+				kind = "syscall:" + c.Errno
+			}
+			lat = append(lat, latRule{Dst: c.writeDst(), N: c.N, Err: kind})
 		case "write-other":
 			lat = append(lat, latRule{Dst: c.writeDst(), N: c.N, Err: "other"})
 		case "write-syscall-outage":
@@ -260,6 +269,10 @@ func c10GenLive(t *rapid.T) c10Live {
 		c.StopNS = c.FaultNS + rapid.SampledFrom([]int64{1, 100 * int64(time.Millisecond), s, 5 * s, 20 * s}).Draw(t, "stoprel")
 	}
 	c.LatNS = rapid.SampledFrom([]int64{0, 0, int64(time.Millisecond), 200 * int64(time.Millisecond)}).Draw(t, "lat")
+	if c.Fault == "read-syscall" || c.Fault == "write-syscall" {
+		// which system call error: all of them are "a system call error other than a permission error"
+		c.Errno = rapid.SampledFrom([]string{"", "EINTR", "EMFILE", "ENFILE", "ENOBUFS", "EIO", "ENODEV", "ENETDOWN"}).Draw(t, "errno")
+	}
 	c.Terminate = rapid.Bool().Draw(t, "terminate")
 	return c
 }
